@@ -491,11 +491,11 @@ theorem C09_source_determine_attrib (env : Py.Env) (ext : Py.Ext) (kc ke ko : Na
 /-- **C09_source_wrap_order**: the body of `attrs(...).wrap` translated from the current source calls
     `add_eq` / `add_order` exactly as the declarative table `Src.wrapModel` says — ordering generated iff the class is
     not an auto_exc exception and the effective `order` flag is True, or unset and (auto-detection off or no own
-    `__lt__`/`__le__`/`__gt__`/`__ge__`) — for every effective `eq`/`order` ∈ {None, True, False}, own `__eq__`, `__ne__`,
-    `__lt__`, `__ge__`, auto_detect, exception base and frozen (2 048 rows, kernel-evaluated). -/
-theorem C09_source_wrap_order : ∀ (es ev os ov oe one olt oge ad eb fz : Bool),
-    Src.srcWrap (Src.sliceOrder es ev os ov oe one olt oge ad eb fz) =
-      Src.wrapModel (Src.sliceOrder es ev os ov oe one olt oge ad eb fz) :=
+    `__lt__`/`__le__`/`__gt__`/`__ge__`) — for every effective `eq`/`order` ∈ {None, True, False}, own `__eq__`,
+    `__lt__`, auto_detect, exception base (256 rows, kernel-evaluated). -/
+theorem C09_source_wrap_order : ∀ (es ev os ov oe olt ad eb : Bool),
+    Src.srcWrap (Src.sliceOrder es ev os ov oe olt ad eb) =
+      Src.wrapModel (Src.sliceOrder es ev os ov oe olt ad eb) :=
   Src.wrap_slice_order
 
 end Attrs.C09
